@@ -193,6 +193,14 @@ histories:
 			}
 			states, roots = append(states, cur), append(roots, root)
 			trace = append(trace, fmt.Sprintf("commit->%d", len(states)-1))
+			// sometimes the memtable is flushed between heights (as background flushes do on a node): the entries of one
+			// height then sit in a table of their own, and reads as of a version go through the version filter
+			if rng.Intn(2) == 0 {
+				if fe := s.DB().Flush(); fe != nil {
+					t.Fatal(fe)
+				}
+				trace = append(trace, "flush")
+			}
 			// sometimes rewind to an earlier height and continue from there with different blocks
 			if len(states) > 2 && rng.Intn(3) == 0 {
 				target := 1 + rng.Intn(len(states)-2)
